@@ -40,7 +40,10 @@ func runStress(rep *Report, rng *rand.Rand, n int, thorough bool) error {
 			for cycle := 0; time.Now().Before(deadline); cycle++ {
 				kv := newMemKV(r.Int63())
 				h := 20 * time.Millisecond
-				cfg := leader.ElectionConfig{Bucket: "b", Group: "g", InstanceID: "i1", TTL: 3 * h, HeartbeatInterval: h, ValidationInterval: h}
+				var chainMu sync.Mutex
+				var chain [][2]string
+				cfg := leader.ElectionConfig{Bucket: "b", Group: "g", InstanceID: "i1", TTL: 3 * h, HeartbeatInterval: h, ValidationInterval: h,
+					Metrics: chainMetrics{&chainMu, &chain}}
 				el, err := leader.NewElection(&memProvider{kv, nil}, cfg)
 				if err != nil {
 					return
@@ -111,6 +114,16 @@ func runStress(rep *Report, rng *rand.Rand, n int, thorough bool) error {
 						Input:  fmt.Sprintf("cycle %d of worker %d: leader, record replaced by an outside writer, %d concurrent ValidateTokenOrDemote calls, Stop", cycle, wkr, callers),
 						Detail: "order in which the callbacks started: " + order})
 				}
+				chainMu.Lock()
+				for k := 1; k < len(chain); k++ {
+					if chain[k][0] != chain[k-1][1] {
+						rep.violation(Finding{Property: "C18", Clause: "transition-chain-broken-under-concurrency",
+							Input:  fmt.Sprintf("cycle %d of worker %d: leader, record replaced by an outside writer, %d concurrent ValidateTokenOrDemote calls, Stop", cycle, wkr, callers),
+							Detail: fmt.Sprintf("transitions recorded: %v", chain)})
+						break
+					}
+				}
+				chainMu.Unlock()
 				if p != d {
 					rep.violation(Finding{Property: "C08", Clause: "callbacks-unbalanced-under-concurrency",
 						Input:  fmt.Sprintf("cycle %d of worker %d: leader, record replaced by an outside writer, %d concurrent ValidateTokenOrDemote calls, Stop", cycle, wkr, callers),
@@ -124,6 +137,26 @@ func runStress(rep *Report, rng *rand.Rand, n int, thorough bool) error {
 	runDuel(rep, rng, dur/2)
 	return nil
 }
+
+// chainMetrics records the stream of state transitions of one election (C18: each one starts in the state the previous
+// one ended in - also when several transitions queue behind one another).
+type chainMetrics struct {
+	mu    *sync.Mutex
+	trans *[][2]string
+}
+
+func (m chainMetrics) IncTransitions(l prometheus.Labels) {
+	m.mu.Lock()
+	*m.trans = append(*m.trans, [2]string{l["from_state"], l["to_state"]})
+	m.mu.Unlock()
+}
+func (chainMetrics) SetIsLeader(float64, prometheus.Labels)                     {}
+func (chainMetrics) SetConnectionStatus(float64, prometheus.Labels)            {}
+func (chainMetrics) IncFailures(prometheus.Labels)                             {}
+func (chainMetrics) IncAcquireAttempts(prometheus.Labels)                      {}
+func (chainMetrics) IncTokenValidationFailures(prometheus.Labels)              {}
+func (chainMetrics) ObserveHeartbeatDuration(time.Duration, prometheus.Labels) {}
+func (chainMetrics) ObserveLeaderDuration(time.Duration, prometheus.Labels)    {}
 
 // duelMetrics observes every leadership-flag change of one election of a duel (C02 under real parallelism).
 type duelMetrics struct {
